@@ -129,6 +129,32 @@ def _scan_toplevel(ctx, repo, cg, mod, node, where, cls=None):
         return
     tname = src(node.targets[0]) if isinstance(node, ast.Assign) else src(node.target)
     loc = f'{mod.relpath}:{node.lineno}'
+    # a one-shot iterator stored at import (generator expression, iter(), map/filter/zip/reversed/enumerate object): whoever
+    # iterates it first -- a membership test `x in TABLE` is enough -- uses it up for every later call and every thread
+    def one_shot(e):
+        # a generator passed to tuple()/list()/sorted()/... is consumed at import and is no element of the stored value
+        out = []
+        if isinstance(e, ast.GeneratorExp):
+            out.append(e)
+        elif isinstance(e, ast.Call) and is_name(e.func, 'iter', 'map', 'filter', 'zip', 'reversed', 'enumerate'):
+            out.append(e)
+        elif isinstance(e, (ast.Tuple, ast.List, ast.Set)):
+            for x in e.elts:
+                out += one_shot(x)
+        elif isinstance(e, ast.Dict):
+            for x in e.values:
+                out += one_shot(x)
+        elif isinstance(e, ast.IfExp):
+            out += one_shot(e.body) + one_shot(e.orelse)
+        elif isinstance(e, ast.Starred):
+            pass
+        return out
+    its = one_shot(v)
+    if its or isinstance(v, (ast.Tuple, ast.List, ast.Set, ast.Dict, ast.GeneratorExp, ast.Call)):
+        ctx.ob('R20.4', f'toplevel-iterator:{mod.name}:{(cls.name + ".") if cls else ""}{tname}', loc,
+               f'{where}: `{tname}` holds no one-shot iterator', not its,
+               f'`{src(its[0]) if its else ""}` is an iterator created once at import: the first use (a membership test is enough) consumes it, '
+               'so the table is complete for the first call only and empty for every later call and every other thread')
     if isinstance(v, ast.Call):
         target_cls = None
         if isinstance(v.func, (ast.Name, ast.Attribute)):
@@ -256,7 +282,7 @@ def check_interned_types(ctx):
                'and identity comparisons (`ttype is ...`) then disagree')
 
 
-def check_global_writes(ctx):
+def check_global_writes(ctx, rid='R20.7'):
     repo = ctx.repo
     cg = get_cg(ctx)
     reach = set()
@@ -269,7 +295,7 @@ def check_global_writes(ctx):
         for node in own_nodes(f.node):
             if isinstance(node, ast.Global):
                 n += 1
-                ctx.ob('R20.7', f'global:{f.short}:{src(node)}', f'{f.mod.relpath}:{node.lineno}', 'no `global` rebinding on the request path', False,
+                ctx.ob(rid, f'global:{f.short}:{src(node)}', f'{f.mod.relpath}:{node.lineno}', 'no `global` rebinding on the request path', False,
                        f'`{src(node)}` in {f.short}')
             tg = node.targets if isinstance(node, ast.Assign) else [node.target] if isinstance(node, (ast.AugAssign, ast.AnnAssign)) else []
             for t0 in tg:
@@ -287,7 +313,7 @@ def check_global_writes(ctx):
                         continue
                     n += 1
                     ok = q == allowed_func
-                    ctx.ob('R20.7', f'store:{f.short}:{src(t)}', f'{f.mod.relpath}:{node.lineno}',
+                    ctx.ob(rid, f'store:{f.short}:{src(t)}', f'{f.mod.relpath}:{node.lineno}',
                            f'store to class/module-level state `{src(t)}` is the lexer singleton publication under the lock', ok,
                            f'`{src(node)}` in {f.short} writes process-wide state on the request path')
     ctx.info['global_write_sites'] = n
@@ -363,7 +389,7 @@ def _import_time_functions(repo):
     return out
 
 
-def check_closure_cells(ctx):
+def check_closure_cells(ctx, rid='R20.8'):
     """A variable of a function that runs at import (a decorator such as utils.recurse) lives as long as the closure that
     captures it, i.e. for the whole process: a nested function that rebinds it (`nonlocal`) or mutates it in place, or that
     stores attributes on a function object, carries state from one call -- and one thread -- into the next."""
@@ -415,7 +441,7 @@ def check_closure_cells(ctx):
                         isinstance(v, ast.Call) and is_name(v.func, 'list', 'dict', 'set', 'deque', 'defaultdict', 'OrderedDict', 'Counter'))
                         for v in vals):
                     bad.append((n.lineno, f'mutates the captured container `{n.func.value.id}` in place (.{n.func.attr})'))
-        ctx.ob('R20.8', f'closure:{f.qname}', f'{f.mod.relpath}:{f.node.lineno}',
+        ctx.ob(rid, f'closure:{f.qname}', f'{f.mod.relpath}:{f.node.lineno}',
                f'{f.qname} (closure created at import by {chain[0].qname}) only reads its captured variables', not bad,
                '; '.join(f'line {ln}: {w}' for ln, w in bad) + ': the cell is created once at import and shared by every later call and '
                'every thread, so a call that raises (or runs concurrently) leaves it in a state the next call observes')
@@ -428,9 +454,16 @@ def controls(ctx):
     from ..model import Repo
     from .. import report
     snippet_lexer = ctx.repo.files['sqlparse/lexer.py']
-    if 'with cls._lock:' in snippet_lexer:
-        bad = snippet_lexer.replace('        with cls._lock:\n            if cls._default_instance is None:',
-                                    '        if cls._default_instance is None:\n          with cls._lock:\n            if cls._default_instance is None:')
+    gf = ctx.repo.funcs.get(RL.LEXER + '.get_default_instance')
+    if gf is not None:
+        # the getter replaced by the unlocked fast path that publishes the instance before it is initialised
+        lines = snippet_lexer.split('\n')
+        first = min([gf.node.lineno] + [d.lineno for d in gf.node.decorator_list])
+        canned = ['    @classmethod', '    def get_default_instance(cls):',
+                  '        if cls._default_instance is None:', '            with cls._lock:', '                if cls._default_instance is None:',
+                  '                    cls._default_instance = cls()', '                    cls._default_instance.default_initialization()',
+                  '        return cls._default_instance']
+        bad = '\n'.join(lines[:first - 1] + canned + lines[gf.node.end_lineno:])
         try:
             r2 = Repo(ctx.repo.root, overlay=dict(ctx.repo.overlay, **{'sqlparse/lexer.py': bad}))
             c2 = report.Ctx('C20', r2, 'quick')
